@@ -12,6 +12,7 @@ import CatiiProofs.Reindexed
 import CatiiProofs.Sliced
 import CatiiProofs.CollapsedDense
 import CatiiProofs.ReindexedUnique
+import CatiiProofs.HistoryLemmas
 /-!
 # C06 — index operations track NumPy on the dense array over any history
 
@@ -27,7 +28,8 @@ or the default), `sliced(*orders)` (column selection, any number of axes), the t
 `collapsed(precedence, mapping)` (each row gets the first listed value present in it, else the last listed — for every
 precedence list, repeats included) and construction from arrays (C01);
 `history_partial` lifts them to arbitrary finite sequences against a NumPy-side specification
-(`specRun`).  `slices1d` is C13's theorem (`CatiiProps/C13`).  Every operation is also modelled in
+(`specRun`); `history_any_shape` does the same for histories in which `sliced`, `collapsed` and `column_stack`
+change the higher shape along the way (`specRunN`).  `slices1d` is C13's theorem (`CatiiProps/C13`).  Every operation is also modelled in
 `CatiiModel/IIndex.lean` statement by statement and tied to the real code by the correspondence harness after
 **every** step of every generated history, with the NumPy reference semantics as the oracle on the real code.
 -/
@@ -225,6 +227,214 @@ theorem from_array_starts_a_history (a : Arr) (o : FromOpts) (idx : IIndex) (w :
     rcases harr.ndim with h1 | h1 <;> omega
   exact history_partial idx (idx.shape.drop 1) _ (represents_self idx hw) hnd ops hok r hr
 
+/-! ### histories that change the higher shape: `sliced`, `collapsed`, `column_stack`
+
+`history_partial` keeps the higher shape fixed.  `history_any_shape` lets it change along the way: the dense array
+carries its higher shape, and a history may also slice columns, collapse them, or stack further indexes next to the
+receiver — the index reached still represents the array the NumPy-side specification reaches. -/
+
+/-- a dense array with its higher shape -/
+structure DenseN where
+  n : Nat
+  hi : List Nat
+  cell : Nat → List Int → Int
+
+inductive OpN
+  | base (op : Op)
+  | sliced (orders : List Order)
+  | collapsed (prec : List Int) (mapping : Option (List (Int × Int)))
+  | stack (others : List IIndex) (newCommon : Option Int)      -- `column_stack([self] + others, new_common)`
+
+def applyN (i : IIndex) : OpN → M IIndex
+  | .base op => apply i op
+  | .sliced os => IIdx.sliced i os
+  | .collapsed p m => IIdx.collapsed i p m
+  | .stack others nc => columnStack (i :: others) nc
+
+def runN : IIndex → List OpN → M IIndex
+  | i, [] => pure i
+  | i, op :: ops => do runN (← applyN i op) ops
+
+/-- number of columns a one- or two-axis array contributes to a stack -/
+def widthOf : List Nat → Nat
+  | [] => 1
+  | w :: _ => w
+
+/-- the NumPy side: `sliced` is `take` axis by axis, `collapsed` gives each row the first listed value present in it
+(else the last listed), `column_stack` puts the columns of the others after the receiver's -/
+def specStepN (d : DenseN) : OpN → DenseN
+  | .base op => ⟨(specStep (d.n, d.cell) op).1, d.hi, (specStep (d.n, d.cell) op).2⟩
+  | .sliced os => ⟨d.n, sliceTail os d.hi, fun r hi' => d.cell r (unslice os hi')⟩
+  | .collapsed p m => ⟨d.n, [], fun r _ =>
+      (p.find? (fun v => (hiCells d.hi).any fun hi => mapGet m (d.cell r hi) == v)).getD (p.getLast?.getD 0)⟩
+  | .stack others _ => ⟨d.n, [widthOf d.hi + (others.map stackWidth).sum], fun r hi =>
+      if (hi.headD 0).toNat < widthOf d.hi then d.cell r (if d.hi = [] then [] else [((hi.headD 0).toNat : Int)])
+      else stackAt others r ((hi.headD 0).toNat - widthOf d.hi) 0⟩
+
+def specRunN (d : DenseN) (ops : List OpN) : DenseN := ops.foldl specStepN d
+
+/-- what each operation asks of its arguments, threaded through the changing shape -/
+def OpsOKN : Nat → List Nat → List OpN → Prop
+  | _, _, [] => True
+  | n, hi, .base op :: ops => hi.length ≤ 1 ∧ OpsOK hi n [op] ∧ OpsOKN (specStep (n, fun _ _ => 0) op).1 hi ops
+  | n, hi, .sliced os :: ops =>
+    os ≠ [] ∧ os.length = hi.length ∧ OrdersNodup os ∧ OrdersInRange os hi ∧ OpsOKN n (sliceTail os hi) ops
+  | n, hi, .collapsed _ _ :: ops => hi.length = 1 ∧ OpsOKN n [] ops
+  | n, hi, .stack others _ :: ops =>
+    hi.length ≤ 1 ∧ (∀ x ∈ others, WF x ∧ x.ndim ≤ 2 ∧ x.nrows = n) ∧
+      OpsOKN n [widthOf hi + (others.map stackWidth).sum] ops
+
+def RepresentsN (i : IIndex) (d : DenseN) : Prop := Represents i d.hi (d.n, d.cell)
+
+theorem specStep_rows (n : Nat) (f g : Nat → List Int → Int) (op : Op) : (specStep (n, f) op).1 = (specStep (n, g) op).1 := by
+  cases op <;> rfl
+
+theorem any_congr_mem {α} (l : List α) (p q : α → Bool) (h : ∀ x ∈ l, p x = q x) : l.any p = l.any q := by
+  induction l with
+  | nil => rfl
+  | cons a as ih =>
+    simp only [List.any_cons, h a List.mem_cons_self, ih (fun x hx => h x (List.mem_cons_of_mem _ hx))]
+
+theorem stackAt_default (others : List IIndex) (row col : Nat) (a b : Int)
+    (h : col < (others.map stackWidth).sum) : stackAt others row col a = stackAt others row col b := by
+  induction others generalizing col with
+  | nil => simp at h
+  | cons x rest ih =>
+    simp only [stackAt]
+    by_cases hc : col < stackWidth x
+    · rw [if_pos hc, if_pos hc]
+    · rw [if_neg hc, if_neg hc]
+      apply ih
+      simp only [List.map_cons, List.sum_cons] at h
+      omega
+
+/-- one step of a shape-changing history -/
+theorem stepN_refines (i : IIndex) (d : DenseN) (h : RepresentsN i d) (op : OpN) (hok : OpsOKN d.n d.hi [op]) (r : IIndex)
+    (hr : applyN i op = .ok r) : RepresentsN r (specStepN d op) := by
+  have hw := h.1
+  have hs := h.2.1
+  have hd := h.2.2
+  have hn : i.nrows = d.n := by simp [IIndex.nrows, hs]
+  have hdrop : i.shape.drop 1 = d.hi := by simp [hs]
+  cases op with
+  | base op =>
+    obtain ⟨hnd, hok1, _⟩ := hok
+    exact step_refines i d.hi (d.n, d.cell) h hnd op hok1 r hr
+  | sliced os =>
+    obtain ⟨hne, hlen, hndp, hir, _⟩ := hok
+    have ok : SliceOK i os := ⟨hw, hne, by simp [IIndex.ndim, hs, hlen], hndp⟩
+    obtain ⟨res, hrun, hw', hs', _, hd'⟩ := sliced_refines ok
+    have : r = res := Except.ok.inj (hr.symm.trans hrun)
+    subst this
+    refine ⟨hw', by rw [hs', hn, hdrop]; rfl, fun row hrow hi' hhi' => ?_⟩
+    simp only [specStepN] at hrow hhi' ⊢
+    rw [hd' row hi' (by rw [hdrop]; exact hhi')]
+    exact hd row hrow _ (unslice_mem os d.hi hlen.symm hir hi' hhi')
+  | collapsed p m =>
+    obtain ⟨hl1, _⟩ := hok
+    have hnd2 : i.ndim = 2 := by simp [IIndex.ndim, hs, hl1]
+    obtain ⟨hw', hs', hd'⟩ := collapsed_refines_getD i hw hnd2 p m r hr
+    refine ⟨hw', by rw [hs', hn]; rfl, fun row hrow hi hhi => ?_⟩
+    simp only [specStepN] at hrow hhi ⊢
+    have hhi0 : hi = [] := by simpa [hiCells] using hhi
+    subst hhi0
+    rw [hd' row (by rw [hn]; exact hrow)]
+    congr 2
+    funext v
+    unfold rowHas rowCells
+    rw [hdrop]
+    apply any_congr_mem
+    intro hi hhi
+    rw [hd row hrow hi hhi]
+  | stack others nc =>
+    obtain ⟨hl1, hall, _⟩ := hok
+    have hnd2 : i.ndim ≤ 2 := by simp only [IIndex.ndim, hs, List.length_cons]; omega
+    have hall' : ∀ x ∈ i :: others, WF x ∧ x.ndim ≤ 2 ∧ x.nrows = d.n := by
+      intro x hx
+      rcases List.mem_cons.mp hx with rfl | hx
+      · exact ⟨hw, hnd2, hn⟩
+      · exact hall x hx
+    obtain ⟨hw', hs', hd'⟩ := columnStack_full i others nc r d.n hall' hr
+    have hwid : stackWidth i = widthOf d.hi := by
+      unfold stackWidth IIndex.ndim
+      rw [hs]
+      cases hhi : d.hi with
+      | nil => simp [widthOf]
+      | cons w rest => simp [widthOf]
+    have htot : ((i :: others).map stackWidth).sum = widthOf d.hi + (others.map stackWidth).sum := by
+      rw [List.map_cons, List.sum_cons, hwid]
+    refine ⟨hw', by rw [hs', htot]; rfl, fun row hrow hi hhi => ?_⟩
+    simp only [specStepN] at hrow hhi ⊢
+    obtain ⟨col, hcol, rfl⟩ := (mem_hiCells_one _ hi).mp hhi
+    rw [hd' row hrow col (by rw [htot]; exact hcol)]
+    simp only [List.headD_cons, Int.toNat_natCast, stackAt, hwid]
+    by_cases hc : col < widthOf d.hi
+    · simp only [hc, ↓reduceIte]
+      have hmem : (if i.ndim > 1 then [(col : Int)] else []) ∈ hiCells d.hi := by
+        unfold IIndex.ndim; rw [hs]
+        cases hhi2 : d.hi with
+        | nil => simp [hiCells]
+        | cons w rest =>
+          have hrest : rest = [] := by
+            rw [hhi2] at hl1; simp only [List.length_cons] at hl1
+            exact List.eq_nil_of_length_eq_zero (by omega)
+          subst hrest
+          rw [hhi2] at hc
+          simp only [List.length_cons, List.length_nil, gt_iff_lt, Nat.lt_add_one, ↓reduceIte]
+          exact (mem_hiCells_one w _).mpr ⟨col, hc, rfl⟩
+      rw [hd row hrow _ hmem]
+      congr 1
+      unfold IIndex.ndim; rw [hs]
+      cases hhi2 : d.hi with
+      | nil => simp
+      | cons w rest => simp
+    · simp only [hc, ↓reduceIte]
+      apply stackAt_default
+      omega
+
+theorem opsOKN_head (n : Nat) (hi : List Nat) (op : OpN) (ops : List OpN) (h : OpsOKN n hi (op :: ops)) :
+    OpsOKN n hi [op] := by
+  cases op with
+  | base op => exact ⟨h.1, h.2.1, trivial⟩
+  | sliced os => exact ⟨h.1, h.2.1, h.2.2.1, h.2.2.2.1, trivial⟩
+  | collapsed p m => exact ⟨h.1, trivial⟩
+  | stack others nc => exact ⟨h.1, h.2.1, trivial⟩
+
+theorem opsOKN_tail (d : DenseN) (op : OpN) (ops : List OpN) (h : OpsOKN d.n d.hi (op :: ops)) :
+    OpsOKN (specStepN d op).n (specStepN d op).hi ops := by
+  cases op with
+  | base op =>
+    simp only [specStepN]
+    rw [specStep_rows d.n d.cell (fun _ _ => 0) op]
+    exact h.2.2
+  | sliced os => exact h.2.2.2.2
+  | collapsed p m => exact h.2
+  | stack others nc => exact h.2.2
+
+/-- **any finite history, the higher shape changing along the way**: copy, shift_common, append, filtered, update,
+reindexed (while the receiver has one or two axes), sliced (any number of axes), collapsed (two axes), column_stack —
+the index reached represents the array the NumPy-side specification reaches -/
+theorem history_any_shape (i : IIndex) (d : DenseN) (h : RepresentsN i d) (ops : List OpN)
+    (hok : OpsOKN d.n d.hi ops) (r : IIndex) (hr : runN i ops = .ok r) : RepresentsN r (specRunN d ops) := by
+  induction ops generalizing i d with
+  | nil =>
+    simp only [runN, pure, Except.pure] at hr
+    cases hr
+    exact h
+  | cons op ops ih =>
+    simp only [runN, bind, Except.bind] at hr
+    cases hs : applyN i op with
+    | error e => rw [hs] at hr; cases hr
+    | ok j =>
+      rw [hs] at hr
+      have hj := stepN_refines i d h op (opsOKN_head d.n d.hi op ops hok) j hs
+      exact ih j (specStepN d op) hj (opsOKN_tail d op ops hok) hr
+
+/-- every well-formed index starts such a history -/
+theorem representsN_self (i : IIndex) (h : WF i) :
+    RepresentsN i ⟨i.nrows, i.shape.drop 1, fun r hi => denseAt i r hi⟩ :=
+  represents_self i h
+
 /-! ### the entry-wise set updates (the property: "entry-wise set algebra")
 
 They are run through the verified kernels of C08; `Listed es k r` says row `r` is listed under key `k`.
@@ -331,5 +541,22 @@ example : OpsOK [] 4 [.shift (some 1), .copy, .append ⟨[([0], [1])], 2, [3]⟩
 -- `collapsed` on [[1,0],[0,0],[1,1]] with a value listed twice: rows get 0, 0, 1
 example : (collapsed ⟨[([1, 0], [0, 2]), ([1, 1], [2])], 0, [3, 2]⟩ [0, 1, 1, 2] none).toOption.map
     (fun r => (List.range 3).map (fun row => denseAt r row [])) = some [0, 0, 1] := by decide +kernel
+
+-- a shape-changing history on a (3, 2) index: re-order the columns, stack a 1-D index next to them, collapse, re-normalise
+def exStart : IIndex := ⟨[([1, 0], [0, 2]), ([2, 1], [1])], 0, [3, 2]⟩
+def exOps : List OpN :=
+  [.sliced [.list [1, 0]], .stack [⟨[([5], [0])], 0, [3]⟩] none, .collapsed [5, 2, 1, 0] none, .base (.shift none)]
+example : OpsOKN 3 [2] exOps := by
+  refine ⟨by decide, by decide, ?_, ⟨by decide, trivial⟩, ?_⟩
+  · intro o ho ks hk
+    simp only [List.mem_singleton] at ho
+    subst ho; cases hk; decide
+  · refine ⟨by decide, ?_, ?_⟩
+    · intro x hx
+      simp only [List.mem_singleton] at hx
+      subst hx
+      exact ⟨wf_sound _ (by decide), by decide, rfl⟩
+    · exact ⟨by decide, by decide, trivial, trivial⟩
+example : (runN exStart exOps).isOk = true := by decide +kernel
 
 end Catii.C06
